@@ -97,25 +97,36 @@ def shard(shard_i, nshards, payload):
                     kind = "semantic"
             text = vgen.render_unit(decls)
             wide = (i % 3 == 0)
-            text = decorate(text, rng, wide)
+            ascii_body = (i % 3 == 1 and i % 4 != 3)
+            if not ascii_body:
+                text = decorate(text, rng, wide)
             if i % 5 == 4:
                 k = text.find(";")
                 text = text[:k] + " ? " + text[k:]
                 kind = "lexical"
             pool = NON_ASCII_1252 + (NON_ASCII_WIDE if wide else [])
-            if i % 6 == 2:
+            if i % 6 == 2 and not ascii_body:
                 # a long run of multi-byte characters (every alignment against any block size) before an error on
                 # the same line
                 blob = "".join(rng.choice(pool + ["a", " "]) for _ in range(rng.choice([3000, 6000, 12000])))
                 text += "\nPROGRAM big%d\nVAR x : INT; END_VAR\n%s(* %s *) x := undeclared_big;\nEND_PROGRAM\n" % (
                     i, "a" * rng.randint(0, 3), blob)
                 kind += "+big"
-            if i % 6 == 5:
+            if i % 6 == 5 and not ascii_body:
                 # unterminated string / comment whose text (quoted in the message) is long and non-ASCII
                 blob = "".join(rng.choice(pool + ["a", "b", " "]) for _ in range(rng.randint(100, 400)))
                 text += "\nPROGRAM unterminated%d\nVAR s : STRING; END_VAR\ns := %s%s%s" % (
                     i, rng.choice(["'", "(* ", '"']), "a" * rng.randint(0, 3), blob)
                 kind += "+unterminated"
+            if i % 3 == 1:
+                # the file ends in a trailing comment / stray character whose last character is not ASCII, no final line
+                # break: its last bytes are a multi-byte sequence (or, in Windows-1252, the start of one)
+                import hostile
+                if i % 2:
+                    text = hostile.truncate_with_tail(text, rng, wide)
+                else:
+                    text = text.rstrip("\n") + rng.choice(["\n", " ", ""]) + hostile.tail(rng, wide)
+                kind += "+tail" + ("-only-nonascii" if ascii_body else "")
             if i % 4 == 1:
                 text = text.replace("\n", "\r\n")
             ref = None
@@ -141,6 +152,7 @@ def shard(shard_i, nshards, payload):
                     r = core.run_cli(["check", ddir], tmp) if cmd == "check-dir" else core.run_cli([cmd, path], tmp)
                     res.evaluations += 1
                     res.count("%s:%s" % (cmd, name))
+                    res.seen("doc_kinds", kind)
                     case = {"text": text, "encoding": name, "cmd": cmd, "kind": kind}
                     if r["watchdog"]:
                         res.inconclusive.append({"why": "cli watchdog", "case": case})
